@@ -152,6 +152,26 @@ UFUNCS = {
 }
 
 HYPERBOLIC = {"sinh", "cosh", "tanh", "asinh", "acosh", "atanh"}
+#: functions of a sum that sympy.simplify expands term by term (exponential cost in the number of
+#: additive terms of the expanded argument: sin((a + b*c - 4.)**3) takes minutes)
+EXPANDING = {"sin", "cos", "tan", "sec", "cot", "sinh", "cosh", "tanh"}
+
+
+def expanded_terms(ast):
+    """rough number of additive terms of the expanded polynomial form of the AST"""
+    k = ast[0]
+    if k in ("add", "sub"):
+        return expanded_terms(ast[1]) + expanded_terms(ast[2])
+    if k == "mul":
+        return expanded_terms(ast[1]) * expanded_terms(ast[2])
+    if k in ("div", "neg"):
+        return expanded_terms(ast[1])
+    if k == "pow":
+        n = int(ast[2])
+        return expanded_terms(ast[1]) ** min(n, 4) if n > 0 else 1
+    if k == "ufunc":
+        return expanded_terms(UFUNCS[ast[1]][2](*ast[2:]))
+    return 1
 NONCOMM = {"sub", "div", "pow", "rpow"}
 CMP_OPS = (">", "<", ">=", "<=")
 
@@ -261,6 +281,9 @@ def interval(ast, ranges):
 PROFILE_FULL = {"jump": True, "abs": True, "undef": True, "ufunc": True, "erf": False,
                 "rpow": True, "funcs": None}
 PROFILE_NUMPY = dict(PROFILE_FULL, erf=True)
+#: `evaluate` and `PDE` read every function unknown to sympy as a differential operator (hypot, exp2
+#: end in a NotImplementedError "not defined for <grid>")
+PROFILE_FIELDS = dict(PROFILE_NUMPY, undef=False)
 #: differentiable nodes whose derivative sympy can print (derivative sub-check)
 PROFILE_SMOOTH = {"jump": False, "abs": False, "undef": False, "ufunc": False, "erf": False,
                   "rpow": True, "funcs": None}
@@ -268,7 +291,8 @@ PROFILE_SMOOTH = {"jump": False, "abs": False, "undef": False, "ufunc": False, "
 PROFILE_SYMPY = {"jump": True, "abs": True, "undef": False, "ufunc": False, "erf": True,
                  "rpow": True, "funcs": None, "heav": False}
 #: what NumbaBackend._make_expression_array compiles (it prints with str(); Abs, ceiling, sec, cot,
-#: Mod, erf and the one-argument Heaviside end in a numba TypingError)
+#: Mod, erf and the one-argument Heaviside - also written as heaviside(x, 0.5), which str() prints
+#: as Heaviside(x) - end in a numba TypingError)
 PROFILE_ARRAY = {"jump": False, "abs": False, "undef": True, "ufunc": False, "erf": False, "rpow": True,
                  "mod": False, "heav": True, "heav1": False, "atan2": True, "hypot": True,
                  "funcs": ["sin", "cos", "tan", "asin", "acos", "atan", "sinh", "cosh", "tanh", "asinh",
@@ -297,8 +321,8 @@ class Builder:
         self.ranges = dict(ranges)
         self.p = profile
         self.budget = budget
-        kinds = ["leaf"] * 2 + ["add"] * 3 + ["sub"] * 4 + ["mul"] * 4 + ["div"] * 4 + ["neg"] * 2 \
-            + ["pow"] * 3 + ["f1"] * 6
+        # NB: Hypothesis favours the first element of sampled_from -> common choices first
+        kinds = ["sub"] * 4 + ["mul"] * 4 + ["f1"] * 6 + ["div"] * 4 + ["add"] * 3 + ["pow"] * 3 + ["neg"] * 2
         if profile.get("rpow"):
             kinds += ["rpow"] * 2
         if profile.get("atan2", profile.get("funcs") is None):
@@ -311,6 +335,8 @@ class Builder:
             kinds += ["heav"] * 2
         if profile.get("ufunc"):
             kinds += ["ufunc"] * 2
+        self.kinds_root = list(kinds)
+        kinds += ["leaf"] * 2
         self.kinds = kinds
         f1 = []
         for name, (dom, _f, _df, _iv, fl) in FUNC1.items():
@@ -342,7 +368,7 @@ class Builder:
 
     def chance(self, k, n):
         """True with probability k/n (uniform, unlike st.integers which favours the end points)"""
-        return self.draw(st.sampled_from([True] * k + [False] * (n - k)))
+        return self.draw(st.sampled_from([False] * (n - k) + [True] * k))
 
     def leaf(self):
         r = self.pick(["var"] * 13 + ["num"] * 6 + ["const"])
@@ -359,9 +385,12 @@ class Builder:
             return u
         cands = []
         big = size_of(u) > 6
+        wide = expanded_terms(u) > 3
         for t in templates:
             if big and getattr(t, "dup", False):
                 continue  # templates that duplicate the term are reserved for small terms
+            if wide and not getattr(t, "flat", False):
+                continue  # no trigonometric function of a wide sum (sympy.simplify explodes)
             try:
                 w = t(u)
                 wl, wh = self.iv(w)
@@ -376,16 +405,21 @@ class Builder:
     # guard templates (u -> AST); tanh is avoided here: sympy.simplify is very slow on
     # hyperbolic functions combined with floating-point powers
     def _t_pos(self):
+        def flat(f):
+            f.flat = True
+            return f
+
         t = [
             lambda u: ["add", ["num", 1.0], ["pow", u, 2]],
             lambda u: ["add", ["num", 2.0], ["call", "sin", u]],
             lambda u: ["add", ["call", "cos", u], ["num", 1.5]],
-            lambda u: ["add", ["num", 2.0], ["call", "atan", u]],
+            flat(lambda u: ["add", ["num", 2.0], ["call", "atan", u]]),
             lambda u: ["sub", ["num", 3.0], ["call", "sin", u]],
             lambda u: ["add", ["num", 0.5], ["pow", ["call", "cos", u], 2]],
+            flat(lambda u: ["sub", ["num", 2.0], ["call", "atan", u]]),
         ]
         if self.p.get("abs"):
-            t.append(lambda u: ["add", ["call", "Abs", u], ["num", 0.5]])
+            t.append(flat(lambda u: ["add", ["call", "Abs", u], ["num", 0.5]]))
         return t
 
     def _t_sym(self, s):
@@ -396,16 +430,27 @@ class Builder:
         def rat(u):
             return ["div", u, ["add", ["num", 1.0], ["pow", u, 2]]]
 
+        def at(u):
+            return ["mul", ["call", "atan", u], ["num", c2]]
+
         rat.dup = True
+        at.flat = True
+        at1 = lambda u: ["call", "atan", u]  # noqa: E731
+        at1.flat = True
         return [
             lambda u: ["mul", ["num", c], ["call", "sin", u]],
             rat,
-            lambda u: ["mul", ["call", "atan", u], ["num", c2]],
+            at,
             lambda u: ["call", "sin", u],
             lambda u: ["call", "cos", u],
-            lambda u: ["call", "atan", u],
+            at1,
             lambda u: ["mul", ["num", 0.5], ["call", "cos", u]],
         ]
+
+    @staticmethod
+    def _flat(f):
+        f.flat = True
+        return f
 
     def g_pos(self, u, hi=math.inf, lo=0.3):
         return self.guard(u, lo, hi, self._t_pos())
@@ -431,12 +476,14 @@ class Builder:
                 lambda u: ["add", ["num", 2.5], ["call", "sin", u]],
                 lambda u: ["add", ["call", "cosh", ["call", "sin", u]], ["num", 0.5]],
                 lambda u: ["sub", ["num", 3.0], ["call", "cos", u]],
+                self._flat(lambda u: ["add", ["num", 3.0], ["call", "atan", u]]),
             ])
         if dom == "cot":
             return self.guard(u, lo, hi, [
                 lambda u: ["add", ["num", 1.5], ["call", "sin", u]],
                 lambda u: ["add", ["call", "cos", u], ["num", 1.5]],
                 lambda u: ["add", ["num", 1.0], ["div", ["num", 1.0], ["add", ["num", 1.0], ["pow", u, 2]]]],
+                self._flat(lambda u: ["add", ["num", 1.55], ["mul", ["num", 0.7], ["call", "atan", u]]]),
             ])
         return self.guard(u, lo, hi, self._t_sym(hi))
 
@@ -444,6 +491,8 @@ class Builder:
         lo, hi = self.iv(u)
         if max(abs(lo), abs(hi)) <= CAP:
             return u
+        if expanded_terms(u) > 3:
+            return ["call", "atan", u]
         return self.pick([["call", "tanh", u], ["call", "sin", u], ["call", "atan", u], ["call", "cos", u]])
 
     # -- recursive draw -----------------------------------------------------------------
@@ -451,7 +500,7 @@ class Builder:
         self.budget -= 1
         if depth <= 0 or self.budget <= 0:
             return self.leaf()
-        k = self.pick(self.kinds[2:] if root else self.kinds)
+        k = self.pick(self.kinds_root if root else self.kinds)
         if k == "leaf":
             return self.leaf()
         if k in ("add", "sub", "mul"):
@@ -463,7 +512,7 @@ class Builder:
         elif k == "neg":
             res = ["neg", self.node(depth - 1)]
         elif k == "pow":
-            n = self.pick([2, 2, 3, 3, -1, -2, 4, 1, 0, -3])
+            n = self.pick([2, 3, -1, -2, 2, 3, 4, -3, 1, 0])
             a = self.node(depth - 1)
             if n < 0:
                 a = self.g_nonzero(a)
@@ -484,7 +533,11 @@ class Builder:
             res = ["rpow", a, b]
         elif k == "f1":
             name = self.pick(self.f1)
-            res = ["call", name, self.g_dom(self.node(depth - 1), FUNC1[name][0])]
+            arg = self.node(depth - 1)
+            if name in EXPANDING and expanded_terms(arg) > 3:
+                flat = [n for n in self.f1 if n not in EXPANDING]
+                name = self.pick(flat) if flat else name
+            res = ["call", name, self.g_dom(arg, FUNC1[name][0])]
         elif k == "atan2":
             a = self.node(depth - 1)
             b = self.node(depth - 1)
@@ -501,7 +554,8 @@ class Builder:
                 # a Mod node must not be able to become a factor of a product
                 res = ["call", self.pick(["sin", "cos", "tanh", "atan"]), res]
         elif k == "heav":
-            h0 = self.pick(([None] if self.p.get("heav1", True) else []) + [0.5, 0.0, 1.0, 0.3, 0.75])
+            h0 = self.pick([0.5, 0.0, 1.0, None, 0.3, 0.75] if self.p.get("heav1", True) else
+                           [0.0, 1.0, 0.3, 0.75])
             res = ["heav", self.node(min(depth - 1, 1)), h0]
         elif k == "ufunc":
             name = self.pick(sorted(UFUNCS))
@@ -516,13 +570,13 @@ def variables(draw, min_vars=1, max_vars=4, names=None, indexed=False):
     """Draw a list of variable descriptions ``{"name", "lo", "hi", "n"}`` (n>0: indexed)."""
     pool = list(names or ["x", "y", "z", "t", "a", "b", "c", "u", "v", "w", "r", "s", "phi", "c1",
                           "u_x", "rho"])
-    n = draw(st.integers(min_vars, max_vars))
+    n = draw(st.sampled_from([k for k in (2, 3, 1, 4, 0) if min_vars <= k <= max_vars]))
     chosen = draw(st.permutations(pool).map(lambda p: list(p)[:n]))
     res = []
     for i, name in enumerate(chosen):
         lo, hi = draw(st.sampled_from([(-2.0, 2.0), (-1.0, 1.0), (0.0, 1.0), (0.5, 3.0), (-5.0, 5.0),
                                        (0.0, 10.0), (-3.0, -0.5), (1.0, 2.0), (-0.5, 0.5)]))
-        nidx = draw(st.sampled_from([0, 0, 0, 2, 3])) if indexed and i == 0 else 0
+        nidx = draw(st.sampled_from([0, 0, 0, 0, 2, 3, 0, 0])) if indexed and i == 0 else 0
         res.append({"name": name, "lo": lo, "hi": hi, "n": nidx})
     return res
 
@@ -534,7 +588,7 @@ def uconsts(draw, max_consts=2):
     for name in draw(st.permutations(["k0", "amp", "carr", "D_1"]).map(lambda p: list(p)[:max_consts])):
         if not draw(st.booleans()):
             continue
-        if name == "carr" or draw(st.sampled_from([True, False, False, False])):
+        if name == "carr" or draw(st.sampled_from([False, False, False, True])):
             lo, hi = draw(st.sampled_from([(-1.0, 1.0), (0.5, 2.0), (-3.0, 3.0)]))
             res.append({"name": name, "lo": lo, "hi": hi, "seed": draw(st.integers(0, 2**31))})
         else:
@@ -567,10 +621,10 @@ def asts(draw, varlist, constlist=(), profile=None, max_depth=5, min_depth=1, bu
     """Draw a guarded AST over the given variables/constants."""
     profile = PROFILE_FULL if profile is None else profile
     leaves, ranges = leaves_and_ranges(varlist, constlist)
-    depth = draw(st.sampled_from([d for d in (2, 3, 3, 4, 4, 5, 5) if min_depth <= d <= max_depth]
+    depth = draw(st.sampled_from([d for d in (4, 3, 5, 4, 3, 5, 2) if min_depth <= d <= max_depth]
                                  or [max_depth]))
     b = Builder(draw, leaves, ranges, profile, budget)
-    if cmp_top and draw(st.sampled_from([True] + [False] * 7)):
+    if cmp_top and draw(st.sampled_from([False] * 7 + [True])):
         op = draw(st.sampled_from(CMP_OPS))
         return ["cmp", op, b.node(depth - 1, root=True), b.node(depth - 1)]
     return b.node(depth, root=True)
